@@ -19,7 +19,13 @@ RULE = ("(a) exhaustive: every ordered pair of strings of length <= L over the a
         "L=4 pairs); (b) random long strings built from segments (digit runs with leading zeros, "
         "alpha runs, separators, tilde/caret, non-ASCII) and single-segment mutation pairs; "
         "(c) epoch/version/release triples through InstalledRpm operators and package lists through "
-        "InstalledRpms.newest/oldest. Non-trivial: the two strings differ and share a non-empty common "
+        "InstalledRpms.newest/oldest; (d) non-ASCII characters of every kind (decimal digits of other "
+        "scripts, other numerics, cased letters with ASCII case mappings, marks, spaces, look-alikes of "
+        ". ~ ^ -) in a second exhaustive alphabet, as look-alike substitutions in dotted-number shaped "
+        "random strings and inside EVR fields; (e) comparison histories: bursts of comparisons of one "
+        "package against several others where every operand is a long-lived object or a temporary built "
+        "inside the expression (dict / from_package / from_json), interleaved with look-ups and builtin "
+        "max/min/sorted. Non-trivial: the two strings differ and share a non-empty common "
         "prefix, or contain ~ or ^, or a digit run with a leading zero; distinct by the pair itself.")
 ASSUMPTIONS = [
     "reference comparator = harness transliteration of rpmvercmp.c (validated against the RPM table "
@@ -29,6 +35,12 @@ ASSUMPTIONS = [
 
 ALPHA_Q = ["0", "1", "9", "a", "B", ".", "-", "~", "^", u"é"]
 ALPHA_T = ["0", "1", "9", "a", "B", ".", "~", "^", u"é"]
+# second exhaustive alphabet: "non-ASCII characters" are not only accented letters.  One representative of
+# the kinds that Python's str methods / the re module treat like ASCII characters although rpmvercmp sees
+# a mere separator: a decimal digit of another script (FULLWIDTH DIGIT ONE, ARABIC-INDIC DIGIT THREE), a
+# letter whose lower() is ASCII (KELVIN SIGN), the look-alike of a marker (FULLWIDTH TILDE).
+ALPHA_U = ["0", "1", ".", u"\uff11", u"\u0663", u"\u212a", u"\uff5e"]
+ALPHA_U_LEN = {"quick": 3, "thorough": 4}
 
 
 def ref(a, b):
@@ -140,6 +152,27 @@ def _sign(x):
     return (x > 0) - (x < 0)
 
 
+_RE_DOTTED_ANY = re.compile(r"\d+(?:[.\uff0e]\d+)*\Z")      # \d: the decimal digits of every script
+
+
+def _na_labels(a, b):
+    """which kinds of non-ASCII characters the pair carries (evidence only)"""
+    both = a + b
+    if both.isascii():
+        return []
+    import unicodedata
+    out = set(["non-ascii"])
+    for c in both:
+        if ord(c) > 127:
+            cat = unicodedata.category(c)
+            out.add("non-ascii:" + ("digit" if cat == "Nd" else "numeric" if cat in ("No", "Nl") else
+                                    "letter" if cat[0] == "L" else "mark/format" if cat[0] in "MC" else
+                                    "space" if cat[0] == "Z" else "punct/symbol"))
+    if _RE_DOTTED_ANY.match(a) and _RE_DOTTED_ANY.match(b) and a != b:
+        out.add("non-ascii:both-dotted-numbers-to-a-lenient-reader")
+    return sorted(out)
+
+
 def check_pair(case):
     from insights.parsers.rpm_vercmp import _rpm_vercmp
     if "c" in case:
@@ -157,7 +190,7 @@ def check_pair(case):
     if _rpm_vercmp(a, a) != 0 or _rpm_vercmp(b, b) != 0:
         raise Violation("reflexivity: vercmp(x,x) != 0", a=a, b=b)
     return {"nontrivial": _nontrivial(a, b),
-            "labels": ["result=%d" % r] + (["tilde/caret"] if ("~" in a + b or "^" in a + b) else [])}
+            "labels": ["result=%d" % r] + (["tilde/caret"] if ("~" in a + b or "^" in a + b) else []) + _na_labels(a, b)}
 
 
 def check_triple(case):
@@ -182,17 +215,21 @@ def exhaustive_pairs(tier, seed, shard, nshards, stats):
     else:
         strs = _strings(ALPHA_T, 4)
     n_nt = 0
-    for ia in range(shard, len(strs), nshards):
-        a = strs[ia]
-        for b in strs:
-            r = _rpm_vercmp(a, b)
-            if r != ref(a, b) or (r not in (-1, 0, 1)):
-                stats.evaluations += 1
-                stats.failure = ({"a": a, "b": b}, "differential mismatch", {})
-                return
-            if _nontrivial(a, b):
-                n_nt += 1
-        stats.evaluations += len(strs)
+    ustrs = _strings(ALPHA_U, ALPHA_U_LEN[tier])
+    for tab in (strs, ustrs):
+        # second pass: all ordered pairs over the non-ASCII alphabet
+        for ia in range(shard, len(tab), nshards):
+            a = tab[ia]
+            for b in tab:
+                r = _rpm_vercmp(a, b)
+                if r != ref(a, b) or (r not in (-1, 0, 1)):
+                    stats.evaluations += 1
+                    stats.failure = ({"a": a, "b": b}, "differential mismatch", {})
+                    return
+                if _nontrivial(a, b):
+                    n_nt += 1
+            stats.evaluations += len(tab)
+    stats.extra["strings_non_ascii_alphabet"] = len(ustrs)
     # distinct non-trivial pairs are counted exactly (each ordered pair is visited once); only a
     # sample of their hashes is kept so that the merge stays small
     stats.extra["exhaustive_pairs_nontrivial"] = n_nt
@@ -257,35 +294,111 @@ _digits = st.one_of(
 _alpha = st.text("abzABZelrcfgit", min_size=1, max_size=5)
 _sep = st.sampled_from([".", "-", "_", "+", "..", ".-", u"é", u"α", u"中", " ", ":", "/"])
 _mark = st.sampled_from(["~", "^", "~~", "^^", "~^", "^~"])
-_segment = st.one_of(_digits, _alpha, _sep, _mark, _digits, _alpha)
+# Non-ASCII characters by kind.  rpmvercmp knows the ASCII digits and letters only; every one of these is a mere
+# separator, whatever Python's str.isdigit/isalpha/lower/upper, int(), the re module or a Unicode normalisation
+# make of it.
+NA_DIGITS = [u"\uff10", u"\uff11", u"\uff12", u"\uff19", u"\u0660", u"\u0663", u"\u06f5", u"\u096d",
+             u"\u0e52", u"\U0001d7cf", u"\U0001d7d8"]                       # category Nd, several scripts
+NA_NUMERIC = [u"\u00b2", u"\u00b9", u"\u00bd", u"\u2163", u"\u2460", u"\u2082", u"\u4e09", u"\u3007"]  # No / Nl / Lo
+NA_LETTERS = [u"\u00e9", u"\u03b1", u"\u4e2d", u"\u00df", u"\u0130", u"\u0131", u"\u212a", u"\u017f",
+              u"\uff41", u"\uff3a", u"\u00c5", u"\u212b", u"\ufb01", u"\U0001d41a"]   # incl. ASCII case mappings
+NA_MARKS = [u"\u0301", u"\u200d", u"\ufe0f", u"\u00ad", u"\u200b", u"\ufeff"]
+NA_SPACES = [u"\u00a0", u"\u2028", u"\u3000", u"\u0085", u"\u2009"]
+NA_PUNCT = [u"\uff0e", u"\uff5e", u"\uff3e", u"\u2013", u"\uff0d", u"\u02c6", u"\u223c", u"\u00b7", u"\uff1a",
+            u"\uff3f", u"\uff0b", u"\U0001f600"]                              # look-alikes of . ~ ^ - : _ +
+_NA_SPLITTING = set(NA_SPACES)
+
+
+def _lookalikes(c):
+    """non-ASCII characters that a lenient implementation could mistake for the ASCII character `c`"""
+    if "0" <= c <= "9":
+        v = ord(c) - 48
+        return [chr(0xff10 + v), chr(0x0660 + v), chr(0x06f0 + v), chr(0x0966 + v), chr(0x1d7ce + v)]
+    if "a" <= c <= "z":
+        return [chr(0xff41 + ord(c) - 97)] + ([u"\u212a"] if c == "k" else []) + ([u"\u017f"] if c == "s" else [])
+    if "A" <= c <= "Z":
+        return [chr(0xff21 + ord(c) - 65)] + ([u"\u212a"] if c == "K" else []) + ([u"\u212b"] if c == "A" else [])
+    return {".": [u"\uff0e", u"\u00b7"], "~": [u"\uff5e", u"\u223c"], "^": [u"\uff3e", u"\u02c6"],
+            "-": [u"\u2013", u"\uff0d"], "_": [u"\uff3f"], "+": [u"\uff0b"], ":": [u"\uff1a"]}.get(c, [u"\u00a0"])
+
+
+_na_any = st.one_of(st.sampled_from(NA_DIGITS), st.sampled_from(NA_DIGITS + NA_NUMERIC),
+                    st.sampled_from(NA_LETTERS + NA_MARKS + NA_SPACES + NA_PUNCT),
+                    st.characters(min_codepoint=0x80, exclude_categories=["Cs"]))
+_segment = st.one_of(_digits, _alpha, _sep, _mark, _digits, _alpha, _digits, _alpha, _na_any)
 _verstr = st.lists(_segment, min_size=0, max_size=8)
+_plain_num = st.one_of(st.integers(0, 30).map(str), st.integers(0, 400).map(str),
+                       st.builds(lambda z, n: "0" * z + str(n), st.integers(1, 2), st.integers(0, 30)),
+                       st.sampled_from(["20200609", "327", "1062"]))
+
+
+@st.composite
+def _dotted(draw):
+    """the everyday shape of versions and releases: numbers joined by dots (as a list of segments)"""
+    n = draw(st.integers(1, 4))
+    out = []
+    for k in range(n):
+        if k:
+            out.append(".")
+        out.append(draw(_plain_num))
+    return out
+
+
+@st.composite
+def _confuse(draw, text, must):
+    """replace some characters of `text` by non-ASCII ones: mostly by a look-alike of the character they
+    replace (same 'meaning' for a lenient reader, a separator for RPM), sometimes by any non-ASCII one"""
+    if not text:
+        return text
+    chars = list(text)
+    k = draw(st.integers(1 if must else 0, min(3, len(chars))))
+    for _ in range(k):
+        i = draw(st.integers(0, len(chars) - 1))
+        if ord(chars[i][0]) > 127:
+            continue
+        chars[i] = draw(st.one_of(st.sampled_from(_lookalikes(chars[i])), st.sampled_from(_lookalikes(chars[i])),
+                                  st.sampled_from(NA_DIGITS), _na_any))
+    return "".join(chars)
 
 
 @st.composite
 def _pair(draw):
-    left = draw(_verstr)
-    mode = draw(st.sampled_from(["independent", "mutate", "mutate", "equal-ish"]))
+    shape = draw(st.sampled_from(["segments", "segments", "segments", "dotted", "dotted"]))
+    seg = _verstr if shape == "segments" else _dotted()
+    left = draw(seg)
+    mode = draw(st.sampled_from(["independent", "mutate", "mutate", "equal-ish", "same"]))
     if mode == "independent":
-        right = draw(_verstr)
+        right = draw(seg)
+    elif mode == "same":
+        right = list(left)
     elif mode == "equal-ish":
         right = list(left)
         if right and draw(st.booleans()):
             i = draw(st.integers(0, len(right) - 1))
             seg = right[i]
-            if seg.isdigit():
+            if seg.isdigit() and seg.isascii():
                 right[i] = draw(st.sampled_from(["0" + seg, seg.lstrip("0") or "0", seg + "0"]))
             else:
                 right[i] = draw(_sep) if not seg[0].isalnum() else seg.swapcase()
     else:
         right = list(left)
         op = draw(st.sampled_from(["ins", "del", "rep"]))
+        new = draw(_segment if shape == "segments" else st.one_of(_plain_num, _plain_num, st.just("."), _segment))
         if op == "ins" or not right:
-            right.insert(draw(st.integers(0, len(right))), draw(_segment))
+            right.insert(draw(st.integers(0, len(right))), new)
         elif op == "del":
             del right[draw(st.integers(0, len(right) - 1))]
         else:
-            right[draw(st.integers(0, len(right) - 1))] = draw(_segment)
-    return {"a": "".join(left), "b": "".join(right)}
+            right[draw(st.integers(0, len(right) - 1))] = new
+    a, b = "".join(left), "".join(right)
+    # look-alike substitution: always for a copy, in every second dotted pair and every fourth segment pair
+    if mode == "same" or draw(st.sampled_from([True, False] if shape == "dotted" else [True, False, False, False])):
+        side = draw(st.sampled_from(["a", "b", "both"]))
+        if side != "b":
+            a = draw(_confuse(a, True))
+        if side != "a":
+            b = draw(_confuse(b, True))
+    return {"a": a, "b": b}
 
 
 def strat_pairs(tier):
@@ -296,8 +409,27 @@ def strat_pairs(tier):
 # ---- EVR triples through InstalledRpm ----------------------------------------------------------
 
 _epoch = st.sampled_from(["0", "1", "2", "10", "(none)", "00", "9", None])
-_ver = st.builds("".join, st.lists(st.one_of(_digits, _alpha, st.sampled_from([".", "_", "~", "^", "+"])),
-                                   min_size=1, max_size=5))
+# non-ASCII characters inside version / release fields: every kind except those that str.split() splits on (the
+# parsers cut their input lines at white space, so such a field cannot come out of a package listing)
+_na_field = st.one_of(st.sampled_from(NA_DIGITS), st.sampled_from(NA_NUMERIC + NA_LETTERS),
+                      st.sampled_from(NA_PUNCT + NA_MARKS[:3]))
+_ver_ascii = st.builds("".join, st.lists(st.one_of(_digits, _alpha, st.sampled_from([".", "_", "~", "^", "+"])),
+                                         min_size=1, max_size=5))
+_ver_seg = st.builds("".join, st.lists(st.one_of(_digits, _alpha, st.sampled_from([".", "_", "~", "^", "+"]), _na_field),
+                                       min_size=1, max_size=5))
+
+
+@st.composite
+def _ver_dotted(draw):
+    text = "".join(draw(_dotted()))
+    if draw(st.booleans()):
+        text += draw(st.sampled_from([".el7", ".el8_4", ".fc33", "~rc1", "^git1", "a", ".el7_9.1"]))
+    if draw(st.sampled_from([True, False, False])):
+        text = "".join(c for c in draw(_confuse(text, True)) if c not in _NA_SPLITTING and not c.isspace())
+    return text or "0"
+
+
+_ver = st.one_of(_ver_ascii, _ver_ascii, _ver_ascii, _ver_ascii, _ver_seg, _ver_dotted())
 
 
 @st.composite
@@ -317,7 +449,8 @@ def _evr_case(draw):
         else:
             other = draw(_evr())
         pk.append(other)
-    return {"pkgs": pk, "via": draw(st.sampled_from(["dict", "json", "parser", "mixed-classes", "yumlist", "parser"]))}
+    return {"pkgs": pk, "via": draw(st.sampled_from(["dict", "json", "parser", "mixed-classes", "yumlist", "parser",
+                                                     "package"]))}
 
 
 def strat_evr(tier):
@@ -335,16 +468,29 @@ def _ref_evr(x, y):
     return ref(x["release"], y["release"])
 
 
-def check_evr(case):
-    from insights.parsers.installed_rpms import InstalledRpm, InstalledRpms
-    from insights.core.context import Context
-    pk = case["pkgs"]
+def _pkgstr(p):
+    """`name-[epoch:]version-release.arch`, the documented argument of InstalledRpm.from_package (generated versions
+    and releases carry neither '-' nor ':')"""
+    return "pkg-%s%s-%s.x86_64" % ("" if p["epoch"] is None else p["epoch"] + ":", p["version"], p["release"])
+
+
+def _dicts(pk):
     dicts = []
     for p in pk:
         d = {"name": "pkg", "version": p["version"], "release": p["release"], "arch": "x86_64"}
         if p["epoch"] is not None:
             d["epoch"] = p["epoch"]
         dicts.append(d)
+    return dicts
+
+
+def _build(via, pk):
+    """the generated packages as objects of the code under test, in the generated order, through the entry
+    point `via`; returns (objects, parser object or None)"""
+    from insights.parsers.installed_rpms import InstalledRpm, InstalledRpms
+    from insights.core.context import Context
+    dicts = _dicts(pk)
+    case = {"via": via}
     parser_obj = None
     if case["via"] == "mixed-classes":
         # packages from `rpm -qa` compared with the same-named packages from `yum list` (a subclass
@@ -355,6 +501,8 @@ def check_evr(case):
         objs = [InstalledRpm(d) for d in dicts]
     elif case["via"] == "json":
         objs = [InstalledRpm.from_json(json.dumps(d)) for d in dicts]
+    elif case["via"] == "package":
+        objs = [InstalledRpm.from_package(_pkgstr(p)) for p in pk]
     else:
         if case["via"] == "yumlist":
             # another user of the same look-up interface: `yum list installed` rows (multilib: the same name
@@ -389,6 +537,12 @@ def check_evr(case):
                                 lines=dicts)
             remaining.remove(hit[0])
             objs.append(hit[0])
+    return objs, parser_obj
+
+
+def check_evr(case):
+    pk = case["pkgs"]
+    objs, parser_obj = _build(case["via"], pk)
     n = len(objs)
     labels = set()
     for i in range(n):
@@ -428,9 +582,154 @@ def check_evr(case):
     return {"nontrivial": nt, "labels": sorted(labels) + ["via=" + case["via"]]}
 
 
+# ---- comparison histories: long-lived objects, temporaries, look-ups in between ------------------------------
+
+import operator as _operator     # noqa: E402
+
+_OPF = {"<": _operator.lt, "<=": _operator.le, "==": _operator.eq, "!=": _operator.ne, ">=": _operator.ge,
+        ">": _operator.gt}
+_OPW = {"<": lambda e: e < 0, "<=": lambda e: e <= 0, "==": lambda e: e == 0, "!=": lambda e: e != 0,
+        ">=": lambda e: e >= 0, ">": lambda e: e > 0}
+_TEMP_HOW = ["dict", "package", "json", "yum"]
+
+
+@st.composite
+def _history_case(draw):
+    """A rule or component holds a package object (from a parser look-up or built by itself) and tests it against
+    several bounds one after the other; the bounds are objects kept in variables or temporaries written inside the
+    expression (`rpm >= InstalledRpm.from_package(lo) and rpm < InstalledRpm.from_package(hi)`).  Generated as
+    bursts: one fixed operand against 1-4 others with any operator, the fixed operand on either side; every operand
+    is a long-lived slot or a temporary; between bursts a slot may be rebound to a new object (the old one dies),
+    the parser is asked for newest/oldest, or the builtin max/min/sorted run over the live objects."""
+    pk = draw(_evr_case())["pkgs"]
+    n = len(pk)
+    idx = st.integers(0, n - 1)
+    ops_ = st.sampled_from(sorted(_OPF))
+
+    def operand(p_live):
+        return st.one_of(*([st.builds(lambda s: {"s": s}, idx)] * p_live +
+                           [st.builds(lambda t, how: {"t": t, "how": how}, idx, st.sampled_from(_TEMP_HOW))] * (4 - p_live)))
+    ops = []
+    for _ in range(draw(st.integers(1, 6))):
+        kind = draw(st.sampled_from(["burst"] * 6 + ["rebind", "lookup", "builtin"]))
+        if kind == "burst":
+            fixed = draw(operand(3))
+            # a temporary written once per comparison is a new object each time
+            side = draw(st.sampled_from(["l", "l", "r"]))
+            for _ in range(draw(st.integers(1, 4))):
+                other = draw(operand(1))
+                ops.append({"k": "cmp", "op": draw(ops_), "l": fixed if side == "l" else other,
+                            "r": other if side == "l" else fixed})
+        elif kind == "rebind":
+            ops.append({"k": "rebind", "s": draw(idx), "t": draw(idx), "how": draw(st.sampled_from(_TEMP_HOW))})
+        elif kind == "lookup":
+            ops.append({"k": draw(st.sampled_from(["newest", "oldest"]))})
+        else:
+            ops.append({"k": draw(st.sampled_from(["max", "min", "sorted"]))})
+    return {"pkgs": pk, "live": draw(st.sampled_from(["parser", "parser", "dict", "package", "json", "mixed-classes",
+                                                      "yumlist"])), "ops": ops}
+
+
+def strat_history(tier):
+    return _history_case()
+
+
+def check_history(case):
+    """every single answer in the history is RPM's answer for the two packages compared - whatever was compared
+    before, whichever of the operands are long-lived and whichever died right after the previous comparison"""
+    from insights.parsers.installed_rpms import InstalledRpm
+    from insights.parsers.yum_list import YumListRpm
+    pk = case["pkgs"]
+    n = len(pk)
+    slots, parser_obj = _build(case["live"], pk)
+    slots = list(slots)
+    held = list(range(n))                 # which generated package a slot holds now
+    dicts = _dicts(pk)
+    ydicts = [dict(d, repo="r") for d in dicts]
+    jsons = [json.dumps(d) for d in dicts]
+    strs = [_pkgstr(p) for p in pk]
+    fresh = {"dict": lambda t: InstalledRpm(dicts[t]), "package": lambda t: InstalledRpm.from_package(strs[t]),
+             "json": lambda t: InstalledRpm.from_json(jsons[t]), "yum": lambda t: YumListRpm(ydicts[t])}
+    rel = [[_ref_evr(pk[i], pk[j]) for j in range(n)] for i in range(n)]
+
+    def as_pk(o):
+        return {"epoch": o.epoch, "version": o.version, "release": o.release}
+    labels = set()
+    prev = None
+    for k, op in enumerate(case["ops"]):
+        kind = op["k"]
+        if kind == "cmp":
+            lo, ro = op["l"], op["r"]
+            li = held[lo["s"]] if "s" in lo else lo["t"]
+            ri = held[ro["s"]] if "s" in ro else ro["t"]
+            want = _OPW[op["op"]](rel[li][ri])
+            # the temporaries exist only inside this expression
+            got = _OPF[op["op"]](slots[lo["s"]] if "s" in lo else fresh[lo["how"]](li),
+                                 slots[ro["s"]] if "s" in ro else fresh[ro["how"]](ri))
+            if bool(got) is not want:
+                raise Violation("step %d of a comparison history: %r %s %r is %r, RPM ordering says %r (%s operand %s "
+                                "operand; live objects via %s)" % (
+                                    k, pk[li], op["op"], pk[ri], got, want, "long-lived" if "s" in lo else "temporary",
+                                    "long-lived" if "s" in ro else "temporary", case["live"]),
+                                left=pk[li], right=pk[ri], op=op["op"], step=k)
+            shape = ("L" if "s" in lo else "t") + ("L" if "s" in ro else "t")
+            labels.add("cmp:" + shape)
+            if prev is not None and prev[0] == (lo if "s" in lo else None) and "s" in lo and "t" in ro and prev[2] and \
+                    prev[1] != ri:
+                labels.add("same-long-lived-left:two-different-temporaries-in-a-row")
+            if prev is not None and prev[0] == (lo if "s" in lo else None) and "s" in lo and prev[1] != ri:
+                labels.add("same-long-lived-left:different-right-in-a-row")
+            prev = (lo if "s" in lo else None, ri, "t" in ro)
+            continue
+        prev = None
+        if kind == "rebind":
+            slots[op["s"]] = None                      # the old object dies first, as with `x = make()` in a loop body
+            slots[op["s"]] = fresh[op["how"]](op["t"])
+            held[op["s"]] = op["t"]
+            labels.add("rebind")
+        elif kind in ("newest", "oldest"):
+            if parser_obj is None:
+                continue
+            o = getattr(parser_obj, kind)("pkg")
+            if not any(o is x for x in parser_obj.packages["pkg"]):
+                raise Violation("%s returned an object that is not in the package list" % kind)
+            me = as_pk(o)
+            for q in pk:
+                e = _ref_evr(q, me)
+                if (e > 0 and kind == "newest") or (e < 0 and kind == "oldest"):
+                    raise Violation("step %d of a comparison history: %s() returned %r but %r is %s" % (
+                        k, kind, me, q, "newer" if kind == "newest" else "older"), pkgs=pk)
+            labels.add("lookup")
+        else:
+            if kind == "sorted":
+                out = sorted(slots)
+                if sorted(id(x) for x in out) != sorted(id(x) for x in slots):
+                    raise Violation("sorted() lost or duplicated a package")
+                for x, y in zip(out, out[1:]):
+                    if _ref_evr(as_pk(x), as_pk(y)) > 0:
+                        raise Violation("step %d of a comparison history: sorted() puts %r before %r, which is older" % (
+                            k, as_pk(x), as_pk(y)), pkgs=[pk[h] for h in held])
+            else:
+                o = (max if kind == "max" else min)(slots)
+                me = as_pk(o)
+                for h in held:
+                    e = _ref_evr(pk[h], me)
+                    if (e > 0 and kind == "max") or (e < 0 and kind == "min"):
+                        raise Violation("step %d of a comparison history: builtin %s() over the packages returned %r "
+                                        "but %r is %s" % (k, kind, me, pk[h], "newer" if kind == "max" else "older"),
+                                        pkgs=[pk[x] for x in held])
+            labels.add("builtin-" + kind)
+    ncmp = sum(1 for op in case["ops"] if op["k"] == "cmp")
+    labels.add("live=" + case["live"])
+    return {"nontrivial": "same-long-lived-left:different-right-in-a-row" in labels or
+            ("cmp:Lt" in labels and ncmp >= 3), "labels": sorted(labels)}
+
+
 # ---- coverage-guided fuzzing (Atheris) over the same differential oracle -------------------------
 
-_FUZZ_ALPHABET = list(u"0123456789abzABZrcelp.-_+~^ :/") + [u"\u00e9", u"\u03b1", u"\u4e2d", "00", "~~", "^~", ".."]
+_FUZZ_ALPHABET = list(u"0123456789abzABZrcelp.-_+~^ :/") + [u"\u00e9", u"\u03b1", u"\u4e2d", "00", "~~", "^~", "..",
+                                                                 u"\uff11", u"\u0663", u"\u096d", u"\u00b2", u"\u212a",
+                                                                 u"\uff5e", u"\uff3e", u"\uff0e"]
 
 
 def fuzz_decode(fdp):
@@ -455,8 +754,9 @@ from vp import fuzz as _fuzz   # noqa: E402
 SUBS = [
     Sub("exhaustive", check_pair, custom=exhaustive_pairs, workers_quick=4, workers_thorough=16,
         budget_quick=120, budget_thorough=1800),
-    Sub("random_pairs", check_pair, strategy=strat_pairs, quick=6000, thorough=60000, workers_quick=2),
-    Sub("evr", check_evr, strategy=strat_evr, quick=1500, thorough=20000, workers_quick=2),
+    Sub("random_pairs", check_pair, strategy=strat_pairs, quick=5000, thorough=60000, workers_quick=2),
+    Sub("evr", check_evr, strategy=strat_evr, quick=1300, thorough=20000, workers_quick=2),
+    Sub("history", check_history, strategy=strat_history, quick=700, thorough=15000, workers_quick=2),
     Sub("atheris", check_pair, custom=_fuzz.campaign(PROPERTY, "atheris", "fuzz_decode", ["insights.parsers.rpm_vercmp"],
                                                       runs_quick=60000, runs_thorough=1500000, max_len=64),
         workers_quick=2, workers_thorough=16, budget_quick=60, budget_thorough=1500),
@@ -468,6 +768,15 @@ REGRESSIONS = [
     Reg("leading-zeros", "exhaustive", {"a": "1.001", "b": "1.1"}),
     Reg("non-ascii", "exhaustive", {"a": u"1.1.αa", "b": u"1.1.βb"}),
     Reg("long-digits", "exhaustive", {"a": "12345678901234567890123", "b": "2345678901234567890123"}),
+    Reg("non-ascii-digit-is-a-separator", "random_pairs", {"a": u"3.\u0663.1", "b": "3.3.1"}),
+    Reg("history-temporaries", "history", {
+        "live": "parser", "pkgs": [{"epoch": "0", "version": "1.5", "release": "2.el8"},
+                                   {"epoch": "0", "version": "1.4", "release": "9.el8"},
+                                   {"epoch": None, "version": "1.10", "release": "1.el8"}],
+        "ops": [{"k": "newest"}, {"k": "cmp", "op": ">=", "l": {"s": 0}, "r": {"t": 1, "how": "package"}},
+                {"k": "cmp", "op": "<", "l": {"s": 0}, "r": {"t": 2, "how": "package"}},
+                {"k": "rebind", "s": 1, "t": 2, "how": "dict"},
+                {"k": "cmp", "op": "==", "l": {"t": 2, "how": "json"}, "r": {"s": 1}}, {"k": "sorted"}]}),
     Reg("epoch-none", "evr", {"via": "parser", "pkgs": [{"epoch": "(none)", "version": "2", "release": "1"},
                                                       {"epoch": "1", "version": "1", "release": "1"},
                                                       {"epoch": None, "version": "2", "release": "1~a"}]}),
